@@ -11,21 +11,23 @@ from fractions import Fraction
 
 import vlib
 
-STATS = {}
+import collections
+
+STATS = collections.Counter()   # default sink; checks/pipe.py passes its own STAGE_STATS
+_sink = STATS
 
 
 def _stat(kind, key, inc=1):
-    d = STATS.setdefault(kind, {})
-    d[key] = d.get(key, 0) + inc
+    _sink[f"{kind} {key}"] += inc
 
 
 def _statmax(kind, key, val):
-    d = STATS.setdefault(kind, {})
-    d[key] = max(d.get(key, 0), val)
+    k = f"{kind} {key}"
+    _sink[k] = max(_sink.get(k, 0), val)
 
 
 def stats():
-    return {k: dict(sorted(v.items())) for k, v in sorted(STATS.items())}
+    return dict(sorted(_sink.items()))
 
 
 def segs(line):
@@ -74,11 +76,17 @@ def _flags(kind, od):
         return "the recorded proposals are not a subsequence of the model's enumeration (pivot destinations x rotations)"
     if od.get("accm") == ["0"]:
         return "accept/reject flags of the candidates differ between model and implementation"
+    if od.get("bravm") == ["0"]:
+        return "dataflow S2 -> S3: the recorded Bravais rotation list is not what the S2 model computes for this lattice"
     return None
 
 
-def compare(kind, exp, out):
-    """None if implementation answer `exp` and model answer `out` agree (or the case is fragile), else a message."""
+def compare(kind, exp, out, stats=None):
+    """None if implementation answer `exp` and model answer `out` agree (or the case is fragile), else a message.
+    `stats`: a Counter that receives what was seen (keys `<kind> <what>`)."""
+    global _sink
+    if stats is not None:
+        _sink = stats
     eh, ed = segs(exp)
     oh, od = segs(out)
     _stat(kind, "cases")
